@@ -381,6 +381,15 @@ class Exec:
         c = R.strip(cond) if cond is not None else None
         while c is not None and c.get("k") == "Paren":
             c = R.strip(c["e"])
+        if c is not None and c.get("k") == "Unary" and c.get("op") == "!":
+            return self.refine(c["e"], not positive)
+        if c is not None and c.get("k") == "Binary" and ((c.get("op") == "&&" and positive) or (c.get("op") == "||" and not positive)):
+            # a conjunction assumed true / a disjunction assumed false: both operands are refined
+            saved = self.ranges
+            self.ranges = self.refine(c["l"], positive)
+            out = self.refine(c["r"], positive)
+            self.ranges = saved
+            return out
         if c is None or c.get("k") != "Binary" or c.get("op") not in ("<", "<=", ">", ">=", "==", "!="):
             return r
         a, b = self.ev(c["l"]), self.ev(c["r"])
